@@ -102,6 +102,7 @@ struct result
 // and flushes, so that a crash leaves the index of the culprit visible.
 // result lines go to this stream (stdout unless a subcommand redirected the library's own printf noise)
 extern std::FILE* g_out;
+void heap_noise();
 // from now on result lines go to the original stdout while stdout itself is sent to /dev/null
 void silence_library_stdout();
 
